@@ -9,7 +9,15 @@ from ..check import VERIF, unjson
 from ..kj import Generate, scratch, splitlines_keep, tag_pairs
 from . import c01
 
+from ..manifest_data import PRES_NOTE  # noqa: E402
+
 LEVEL = "proof"
+
+MANIFEST = {
+    "technique": 'Coq proof (replace-mode emplace = sync specification; idempotence) + differential correspondence',
+    "text": "Theorems C18_shared_replaced_rest_untouched / C18_idempotent over the model of FilePreservationSyncUtil; 'A is not modified' is observed on every real run (partial: not a Coq statement).",
+    "note": PRES_NOTE,
+}
 RULE = ("cases = pairs of files (A, B) built from a grammar: plain lines (TABs, blank-line runs, generator-tag look-alikes, EXCLUDE/"
         "EXTENDS lines), tag pairs in 5 comment styles/indentations with names that are prefixes of one another (X, XY, X_1), shared / "
         "A-only / B-only, bodies empty / blank runs / tabs, last line with or without LF; run through the real Generate.FileSync, "
